@@ -267,7 +267,18 @@ func c16monitor(c *Ctx, cs *Case, ob obs) {
 		if ri > 0 && bytes.Equal(out, ob.outs[0]) {
 			continue
 		}
-		checkLine(cs, m, string(out), viol)
+		v := viol
+		if ri > 0 {
+			how := "literal"
+			if ri < len(cs.Constructions) {
+				how = cs.Constructions[ri]
+			}
+			ri := ri
+			v = func(key, mon, desc string, observed, expected interface{}) {
+				viol(key, mon, fmt.Sprintf("%s [rendering %d, writer built: %s]", desc, ri, how), observed, expected)
+			}
+		}
+		checkLine(cs, m, string(out), v)
 	}
 	timePart(cs, m, viol)
 	messagePart(cs, m, viol)
